@@ -109,6 +109,7 @@ impl Sim {
                 comp_pending_blocks: Vec::new(),
                 catchup: None,
                 step_malformed_notification: false,
+                steps_since_quiesce: 0,
                 malformed_notifications_sent: 0,
                 op_kind: "boot",
                 step_delivers_only_nontrampoline: false,
@@ -284,6 +285,9 @@ impl Sim {
                 return End::Crash;
             }
             self.w.step += 1;
+            if self.w.quiescing {
+                self.w.steps_since_quiesce += 1;
+            }
             if self.w.node.expire_waits(self.w.now_ms) > 0 {
                 self.stats.fault("waitsendpay-timeout-200");
             }
@@ -839,7 +843,11 @@ impl Sim {
                     if let Some(e) = expiry_off {
                         spec.expiry_off = *e;
                     }
-                    self.add_htlc(spec, u32::MAX, true);
+                    // Near the end of the u32 height range no HTLC with a
+                    // comfortable expiry exists: no probe, no judgement.
+                    if self.w.node.height as i64 + spec.expiry_off <= u32::MAX as i64 {
+                        self.add_htlc(spec, u32::MAX, true);
+                    }
                 }
             }
             Op::Deliver { hids, release } => {
